@@ -11,10 +11,10 @@ from ..verdict import Acc
 SIZES = {
     # (synth scenarios, steps each, micro BFS scenarios, shipped steps,
     #  generated scenarios)
-    "quick": dict(n_synth=120, steps=260, n_micro=14, shipped_steps=250,
-                  n_gen=4, bfs_cap=1500),
-    "thorough": dict(n_synth=3200, steps=600, n_micro=480,
-                     shipped_steps=1500, n_gen=64, bfs_cap=6000),
+    "quick": dict(n_synth=320, steps=320, n_micro=40, shipped_steps=300,
+                  n_gen=10, bfs_cap=1500),
+    "thorough": dict(n_synth=6000, steps=700, n_micro=900,
+                     shipped_steps=2000, n_gen=120, bfs_cap=8000),
 }
 BFS_SHIPPED = {"quick": ["tiny", "tiny-hard"],
                "thorough": ["tiny", "tiny-hard", "tiny-small", "small",
